@@ -170,8 +170,8 @@ PROPS = {
                  'a crash keeps exactly the file-system effects issued so far (no torn writes below the granularity of a write call, no reordering by the OS)'],
     ),
     'C04': dict(
-        modules=['NitroVerif.Props.C04', 'NitroVerif.Props.C16'],
-        iruns=[('mvccconc', gens.gen_mvccconc, 120, 5000)],
+        modules=['NitroVerif.Props.C04', 'NitroVerif.Props.C16', 'NitroVerif.Props.C13c'],
+        iruns=[('mvccconc', gens.gen_mvccconc, 120, 5000), ('barrier', gens.gen_barrier, 80, 3000), ('skipconc', gens.gen_skipconc, 80, 3000)],
         runs=[('mvcc', gens.gen_mvcc_mm, 150, 10000)],
         keep_prefix=1,
         level='proof',
@@ -183,7 +183,7 @@ PROPS = {
     ),
     'C07': dict(
         modules=['NitroVerif.Props.C07', 'NitroVerif.Props.C17'],
-        iruns=[('mvccconc', gens.gen_mvccconc, 120, 5000)],
+        iruns=[('mvccconc', gens.gen_mvccconc, 120, 5000), ('barrier', gens.gen_barrier, 80, 3000)],
         runs=[('mvcc', gens.gen_mvcc_mm, 150, 10000), ('mvcc', gens.gen_backup, 60, 3000)],
         keep_prefix=1,
         level='proof',
@@ -194,7 +194,7 @@ PROPS = {
     ),
     'C03': dict(
         modules=['NitroVerif.Props.C03', 'NitroVerif.Props.C13c'],
-        iruns=[('mvccconc', gens.gen_mvccconc, 150, 6000)],
+        iruns=[('mvccconc', gens.gen_mvccconc, 150, 6000), ('skipconc', gens.gen_skipconc, 100, 4000)],
         level='proof',
         level_text='C03_linearizable_atomic_search_partial: for every number of writers and every schedule of all actions (writers, readers, closes, collection and free jobs, any number of epochs) the constructed linearization (decisive step of each call; a losing Delete at the winner step) replays on the reference set with every observed result and each point lies between call and return; C03_next_snapshot, C03_one_winner, C03_same_node_losers. PARTIAL: every skiplist operation is one atomic action of this model; that is justified by the concurrent skiplist theorems C13 (updates linearize at the publish / level-0 mark, misses are absent at an instant inside the call), whose composition with this model is argued, not mechanised',
         trusted=['Lean 4 kernel', 'tools/gofacts guards and skeletons of Put2/Delete2/DeleteNode',
